@@ -406,9 +406,45 @@ def mon_c18(hs, prev, op, ok, trace, cur, known):
         hs['stsei_hub'] = t[2]
     if t[0] == 'inst_bsei' and ok:
         hs['bsei_hub'] = t[2]
+    # ghost ledger of what each owner GRANTED (amount, expiration), kept by the cw20 convention: an
+    # increase / decrease without `expires` keeps the current expiration of the entry; a decrease to
+    # zero or below removes the entry; spending keeps the entry (also at 0) and its expiration.
+    # A spend accepted although the granted allowance had expired (or was smaller) moves tokens the
+    # owner never released - even if the *stored* allowance says otherwise.
+    gl = hs.setdefault('grants', {})
+    if t[0] in ('inst_bsei', 'inst_stsei'):
+        tk = t[0][5:]
+        for key in [k for k in gl if k[0] == tk]:
+            del gl[key]
     if prev is None or not ok or t[0] != 'cw':
         return None
     tok, sender, verb = t[1], t[2], t[3]
+    ghost_msg = None
+    if verb == 'incallow':
+        e = gl.get((tok, sender, t[4]), [0, 'never'])
+        gl[(tok, sender, t[4])] = [e[0] + int(t[5]), e[1] if t[6] == '-' else t[6]]
+    elif verb == 'decallow':
+        e = gl.get((tok, sender, t[4]))
+        if e is not None:
+            if e[0] > int(t[5]):
+                gl[(tok, sender, t[4])] = [e[0] - int(t[5]), e[1] if t[6] == '-' else t[6]]
+            else:
+                del gl[(tok, sender, t[4])]
+    elif verb in ('transferfrom', 'burnfrom', 'sendfrom'):
+        amt_g = int(t[6]) if verb in ('transferfrom', 'sendfrom') else int(t[5])
+        e = gl.get((tok, t[4], sender))
+        now_g = int(prev.one('t')[0])
+        if e is None:
+            if amt_g != 0:
+                ghost_msg = '%s: %s of %d by %s accepted, but %s never granted (or has withdrawn) an allowance' % (tok, verb, amt_g, sender, t[4])
+        elif _expired(e[1], now_g):
+            ghost_msg = '%s: %s of %d accepted at t=%d although the allowance %s granted to %s expired (%s)' % (tok, verb, amt_g, now_g, t[4], sender, e[1])
+        elif amt_g > e[0]:
+            ghost_msg = '%s: %s of %d exceeds what %s granted to %s (%d left)' % (tok, verb, amt_g, t[4], sender, e[0])
+        else:
+            e[0] -= amt_g
+    if ghost_msg:
+        return ('violation', ghost_msg)
     pinfo = prev.one('tok.%s.info' % tok)
     cinfo = cur.one('tok.%s.info' % tok)
     if pinfo is None or cinfo is None:
